@@ -51,10 +51,30 @@ func runC19(c *core.Ctx) {
 	}
 }
 
-func checkAccrual(c *core.Ctx, end *ssa.Function) {
+// groupFnWith: the function of fn's group (fn and the helpers only it calls) that contains a call
+// site satisfying pred; fn itself when none does.
+func groupFnWith(c *core.Ctx, fn *ssa.Function, pred func(*core.Site) bool) *ssa.Function {
+	for _, g := range append([]*ssa.Function{fn}, c.Helpers(fn)...) {
+		for _, s := range core.Sites(g) {
+			if pred(s) {
+				return g
+			}
+		}
+	}
+	return fn
+}
+
+func checkAccrual(c *core.Ctx, endRoot *ssa.Function) {
 	var acc, slashed *core.Site
 	var dropAdd, dropZero *core.Site
-	for _, s := range core.Sites(end) {
+	// the accrual loop and the return of dropped validators' rewards may each live in a helper
+	end := groupFnWith(c, endRoot, func(s *core.Site) bool { return methodName(s) == "AddAccumReward" })
+	dropFn := groupFnWith(c, endRoot, func(s *core.Site) bool { return methodName(s) == "SetAccumReward" })
+	sites := core.Sites(end)
+	if dropFn != end {
+		sites = append(append([]*core.Site{}, sites...), core.Sites(dropFn)...)
+	}
+	for _, s := range sites {
 		switch methodName(s) {
 		case "AddAccumReward":
 			acc = s
@@ -132,6 +152,16 @@ func checkAccrual(c *core.Ctx, end *ssa.Function) {
 		"under IsToDrop(): rewards += val.GetAccumReward(); val.SetAccumReward(0) on the same validator", "a dropped validator's accumulated reward does not return to the pool (or is not zeroed afterwards)")
 	// more
 	var pay ssa.Value
+	end = endRoot
+	for _, g := range c.Helpers(endRoot) {
+		for _, b := range g.Blocks {
+			for _, in := range b.Instrs {
+				if call, ok := in.(*ssa.Call); ok && call.Call.StaticCallee() == nil && !call.Call.IsInvoke() && call.Call.Signature().Params().Len() == 2 && call.Call.Signature().Results().Len() == 1 {
+					end = g
+				}
+			}
+		}
+	}
 	for _, b := range end.Blocks {
 		for _, in := range b.Instrs {
 			if call, ok := in.(*ssa.Call); ok && call.Call.StaticCallee() == nil && !call.Call.IsInvoke() {
